@@ -57,6 +57,14 @@ ASSUMPTIONS = [
     "the Lean model (Model/World.lean `step`) is compared on the projection of every history onto "
     "the formulas of the exactly modelled fragment (frames with 4/8 rows of dyadic numbers, so "
     "`center` is exact in floating point)",
+    "frames with missing values in used columns: the World model has no missing-value step (that step "
+    "is the subject of C09), so a build on such a frame enters the projection with the rows the "
+    "implementation kept (the design's own `.data`) as its frame, and only when 1, 2, 4 or 8 rows were "
+    "kept (`center` exact); other builds on such frames, and evaluations of projected designs on "
+    "frames with missing values, are compared with fresh processes and snapshots only",
+    "the pool has frames whose columns are EXACTLY the variables of one formula (no unused column), "
+    "with missing values in used columns, besides frames with unused columns with and without "
+    "missing values; every frame handed to the library is fingerprinted after every operation",
     "absence of writes to arrays/DataFrames already returned, object aliasing (shared Term objects, "
     "shared slices dict), the Polynomial memo dictionaries and the TRANSFORMS registry are outside "
     "the model: they are covered only by the snapshot checks of this harness and by the translator "
@@ -82,11 +90,31 @@ FORMULAS = [
     # remembers about it is fixed by that build, not by the frames evaluated afterwards
     ("y ~ scale(w) + center(w):h + f", False),
 ]
+N_BASE = 6                  # frames 0..5 have every column; frame 6 + i has exactly the columns of formula i
+
+
+def tight_index(formula_idx):
+    return N_BASE + formula_idx
+
+
 POOLS = {
-    # name: (formula indices, frames to build from, frames to evaluate, config values)
-    "small": ([0, 1, 2], [0, 1], [0, 1], ["error", "silent"]),
-    "full": (list(range(len(FORMULAS))), [0, 1, 2], [0, 1, 2, 3], MODES),
+    # name: (formula indices, frames to build from, frames to evaluate, config values,
+    #        also use, for (a design of) formula i, the frame that has exactly its columns)
+    "small": ([0, 1, 2], [0, 1], [0, 1], ["error", "silent"], False),
+    # frames with missing values in used columns; 4: with unused columns, 6 + i: without
+    "na": ([0, 3, 4], [4], [1, 4], ["silent"], True),
+    "full": (list(range(len(FORMULAS))), [0, 1, 2, 4, 5], [0, 1, 2, 3, 4, 5], MODES, True),
 }
+
+
+# evaluations of projected designs on frames with missing values: compared with the model?
+NA_FRAMES_NOT_PROJECTED = False
+
+
+def formula_columns(formula, columns):
+    import re
+    toks = set(re.findall(r"[A-Za-z_][A-Za-z_0-9]*", formula))
+    return [c for c in columns if c in toks]
 
 
 # ------------------------------------------------------------------------------------------------
@@ -116,12 +144,43 @@ def make_frames(seed):
         df["cu"] = pd.Categorical(cat(["m1", "m2"]))
         return df
 
+    def punch(df, rows, always, extra):
+        """missing values in used columns: in every row of `rows` the columns `always`, and one or
+        two of `extra`"""
+        out = df.copy()
+        for i in rows:
+            for c in list(always) + rng.sample(extra, min(len(extra), rng.randrange(0, 3))):
+                j = out.columns.get_loc(c)
+                if c in ("f", "g", "h"):
+                    out[c] = out[c].astype(object)
+                    out.iloc[i, j] = None
+                else:
+                    out.iloc[i, j] = float("nan")
+        return out
+
     a = frame(8, ["a", "b", "c"], ["u", "v", "w", "t"], 0, None)
     b = frame(4, ["a", "b"], ["u", "v"], 10, [10, 11, 12, 13])
     c = frame(8, ["a", "b", "c"], ["u", "v", "w", "s"], -7, list("abcdefgh"))
     # a single new observation (evaluated only): a known level of f, an unseen group
     d = frame(1, ["a"], ["r"], 3, [99])
-    return [a, b, c, d]
+    # missing values in used columns.  e: 12 rows, 4 of them incomplete for every formula (the response
+    # is missing there, and now and then other variables too): 8 rows are kept whatever the formula.
+    e = frame(12, ["a", "b", "c"], ["u", "v", "w", "t"], 2, [20 + 3 * i for i in range(12)])
+    e = punch(e, rng.sample(range(12), 4), ["y"], ["x", "z", "f", "g", "h", "w"])
+    # g: 10 rows, single variables missing here and there: which rows are kept depends on the formula
+    g = frame(10, ["a", "b", "c"], ["u", "v", "w", "t"], -3, None)
+    rows = rng.sample(range(10), 4)
+    for i, col in zip(rows, rng.sample(["x", "z", "f", "h", "w", "y"], 4)):
+        g = punch(g, [i], [col], [])
+    base = [a, b, c, d, e, g]
+    assert len(base) == N_BASE
+    # frames that have exactly the columns one formula uses (nothing to leave out), with the missing
+    # values of e / g
+    tight = []
+    for i, (formula, _) in enumerate(FORMULAS):
+        src = e if i % 2 == 0 else g
+        tight.append(src[formula_columns(formula, src.columns)].copy())
+    return base + tight
 
 
 def _distinct(vals, rng):
@@ -375,7 +434,9 @@ def frame_fingerprint(df):
             cols.append(("cat", tuple(col.cat.categories.tolist()), bool(col.cat.ordered),
                          col.cat.codes.to_numpy().tobytes()))
         elif col.dtype == object or str(col.dtype).startswith(("str", "string")):
-            cols.append(("obj", tuple(col.tolist())))
+            # (a missing value is not equal to itself: name it)
+            cols.append(("obj", tuple(("<missing>", type(v).__name__) if pd.isna(v) else v
+                                      for v in col.tolist())))
         else:
             cols.append(("num", col.to_numpy().tobytes()))
     return (tuple(df.columns), tuple(str(t) for t in df.dtypes), type(df.index).__name__,
@@ -713,44 +774,50 @@ def _exec_fresh_main():
 # histories
 # ------------------------------------------------------------------------------------------------
 def enumerate_histories(pool, max_len):
-    fidx, bidx, eidx, cfgs = POOLS[pool]
+    fidx, bidx, eidx, cfgs, tight = POOLS[pool]
 
-    def ext(k):
-        ops = [("b", f, d) for f in fidx for d in bidx]
+    def ext(built):
+        ops = [("b", f, d) for f in fidx for d in bidx + ([tight_index(f)] if tight else [])]
         ops += [("s", CONFIG_KEY, c) for c in cfgs]
-        ops += [(kind, i, d) for i in range(k) for d in eidx for kind in ("c", "g")]
+        ops += [(kind, i, d) for i, f in enumerate(built)
+                for d in eidx + ([tight_index(f)] if tight else []) for kind in ("c", "g")]
         return ops
 
     out = []
 
-    def rec(h, k):
+    def rec(h, built):
         if h:
             out.append(list(h))
         if len(h) == max_len:
             return
-        for op in ext(k):
+        for op in ext(built):
             # designs are counted optimistically (a failing build shifts nothing: later
             # indices then refer to no design, which is itself a compared outcome)
-            rec(h + [op], k + (1 if op[0] == "b" else 0))
-    rec([], 0)
+            rec(h + [op], built + ([op[1]] if op[0] == "b" else []))
+    rec([], [])
     return out
 
 
 def random_history(rng, pool, max_len):
-    fidx, bidx, eidx, cfgs = POOLS[pool]
+    fidx, bidx, eidx, cfgs, tight = POOLS[pool]
     n = rng.randrange(1, max_len + 1)
-    h, k = [], 0
+    h, k, built = [], 0, []
     if rng.random() < 0.5:
         h.append(("s", CONFIG_KEY, rng.choice(cfgs[1:] or cfgs)))
     for _ in range(n - len(h)):
         u = rng.random()
         if k == 0 or u < 0.3:
-            h.append(("b", rng.choice(fidx), rng.choice(bidx)))
+            f = rng.choice(fidx)
+            # now and then the frame that has exactly the columns of this formula
+            d = tight_index(f) if tight and rng.random() < 0.3 else rng.choice(bidx)
+            h.append(("b", f, d))
+            built.append(f)
             k += 1
         elif u < 0.8:
             # mostly recent designs, sometimes any
             i = rng.randrange(k) if rng.random() < 0.5 else max(0, k - 1 - rng.randrange(min(k, 3)))
-            h.append((rng.choice(["c", "c", "g"]), i, rng.choice(eidx)))
+            d = tight_index(built[i]) if tight and rng.random() < 0.15 else rng.choice(eidx)
+            h.append((rng.choice(["c", "c", "g"]), i, d))
         else:
             v = rng.random()
             if v < 0.06:
@@ -772,17 +839,24 @@ def run_history(frames, ops, pristine=None):
         outs.append(p.step(pos, op))
         spec = None
         if op[0] == "b" and len(p.designs) > before:
-            spec = build_spec(p.designs[-1][0], op)
+            spec = build_spec(p.designs[-1][0], op, frames[op[2]])
         specs.append(spec)
     p.finish(len(ops))
     return outs, keys, p.flags, specs
 
 
-def build_spec(dm, op):
+def build_spec(dm, op, df=None):
     from formulae.terms import Intercept
     req = {"formula": FORMULAS[op[1]][0], "frame": op[2],
            "names": designs.names_json({k: v for k, v in make_namespace().items() if k != "np"}),
            "response": None, "common": [], "group": []}
+    if df is not None:
+        used = formula_columns(req["formula"], df.columns)
+        if bool(df[used].isna().any().any()):
+            # the model has no missing-value step: it is given the rows the implementation kept
+            kept = designs.dm_frame(dm, df)
+            req["frame_data"] = designs.frame_json(kept)
+            req["exact"] = len(kept) in (1, 2, 4, 8)
     if dm.response is not None:
         req["response"] = designs._term_spec(dm.response.term.term)
     if dm.common is not None:
@@ -807,8 +881,9 @@ def worker(args):
     return [run_history(frames, h, pristine) for h in histories]
 
 
-def project_modelled(ops, outs, specs):
-    """ops on designs of modelled formulas only (re-indexed), with the implementation's outputs"""
+def project_modelled(ops, outs, specs, na_frames=frozenset()):
+    """ops on designs of modelled formulas only (re-indexed), with the implementation's outputs;
+    `na_frames`: indices of frames with missing values (evaluations on them are not projected)"""
     mops, mouts = [], []
     index = {}            # design index in the history -> index in the projection
     n_designs, n_proj = 0, 0
@@ -818,7 +893,7 @@ def project_modelled(ops, outs, specs):
             mouts.append(out)
         elif op[0] == "b":
             created = out["t"] == "built"
-            if FORMULAS[op[1]][1]:
+            if FORMULAS[op[1]][1] and (spec is None or spec.get("exact", True)):
                 # a build that raised has no observed coding decisions: the model needs none to
                 # raise as well only if it raises before using them; skip such builds
                 if created:
@@ -829,7 +904,7 @@ def project_modelled(ops, outs, specs):
             if created:
                 n_designs += 1
         else:
-            if op[1] in index:
+            if op[1] in index and op[2] not in na_frames:
                 mops.append([op[0], index[op[1]], op[2]])
                 mouts.append(out)
     return mops, mouts
@@ -892,9 +967,10 @@ def explore(tier, seed, res=None, replay=None):
     import multiprocessing as mp
     res = res or Result()
     res.rule = ("histories of build / evaluate-common / evaluate-group / set-config over %d formulas "
-                "x 4 frames (3 to build from) x 3 config values; non-trivial = a history with >= 2 "
-                "operations in which an evaluation returned a matrix; distinct by operation "
-                "sequence" % len(FORMULAS))
+                "x %d frames (4 complete ones, 2 with missing values in used columns, and per formula "
+                "one that has exactly the formula's columns, with missing values) x 3 config values; "
+                "non-trivial = a history with >= 2 operations in which an evaluation returned a "
+                "matrix; distinct by operation sequence" % (len(FORMULAS), N_BASE + len(FORMULAS)))
     frames = make_frames(seed)
     # ---- the histories
     batches = []                 # (pool, ops)
@@ -906,6 +982,11 @@ def explore(tier, seed, res=None, replay=None):
             batches.append(("small", h))
         res.exhaustive = True
         res.count("exhaustive histories (pool 'small', length <= %d)" % exh_len, len(batches))
+        na_hist = enumerate_histories("na", exh_len - 1)
+        for h in na_hist:
+            batches.append(("na", h))
+        res.count("exhaustive histories (pool 'na': frames with missing values in used columns, with "
+                  "and without unused columns, length <= %d)" % (exh_len - 1), len(na_hist))
         n_rand, max_len = (300, 12) if tier == "quick" else (5000, 30)
         for i in range(n_rand):
             batches.append(("full", random_history(rng_for(seed, "c07", "hist", i), "full", max_len)))
@@ -980,7 +1061,22 @@ def _judge(tier, seed, res, replay, frames, batches, runs, fresh, keys, zy, n_wo
 
     build_table, build_index = [], {}
 
+    frames_json = [designs.frame_json(f) for f in frames]
+    kept_index = {}
+    na_frames = frozenset(i for i, f in enumerate(frames) if NA_FRAMES_NOT_PROJECTED and bool(
+        f[[c for c in f.columns if c != "unused"]].isna().any().any()))
+
     def intern_build(spec):
+        spec = dict(spec)
+        kept = spec.pop("frame_data", None)
+        spec.pop("exact", None)
+        if kept is not None:
+            # the rows the implementation kept, as one more frame of the table
+            kk = json.dumps(kept, sort_keys=True)
+            if kk not in kept_index:
+                kept_index[kk] = len(frames_json)
+                frames_json.append(kept)
+            spec["frame"] = kept_index[kk]
         k = json.dumps(spec, sort_keys=True)
         if k not in build_index:
             build_index[k] = len(build_table)
@@ -1000,17 +1096,25 @@ def _judge(tier, seed, res, replay, frames, batches, runs, fresh, keys, zy, n_wo
                     res.count("out:eval with a warning")
                 if o["new_factors"]:
                     res.count("out:eval with new groups")
+        for op, sp in zip(ops, specs):
+            if sp is not None and "frame_data" in sp:
+                res.count("builds that dropped incomplete rows" + (
+                    " on a frame with exactly the formula's columns" if op[2] >= N_BASE else ""))
+                if FORMULAS[op[1]][1] and sp.get("exact"):
+                    res.count("builds that dropped incomplete rows, compared with the model")
+        for op, o in zip(ops, outs):
+            if op[0] in ("c", "g") and op[2] >= 4 and o["t"] == "eval":
+                res.count("evaluations on a frame with missing values")
         res.count("history length %02d" % len(ops))
         if len(ops) >= 2 and any(o["t"] == "eval" for o in outs):
             res.nontrivial.add(tuple(ops))
         req = {"impl": [intern(o) for o in outs], "fresh": [intern(fresh[k]) for k in hkeys],
                "unchanged": [ok for _, _, ok in flags], "mops": None}
-        mops, mouts = project_modelled(ops, outs, specs)
+        mops, mouts = project_modelled(ops, outs, specs, na_frames)
         if any(m[0] == "b" for m in mops):
             req["mops"] = [["b", intern_build(m[1])] if m[0] == "b" else m for m in mops]
             req["mimpl"] = [intern(o) for o in mouts]
         hreqs.append(req)
-    frames_json = [designs.frame_json(f) for f in frames]
     answers = []
     chunk = 400
     for i in range(0, len(hreqs), chunk):
@@ -1061,7 +1165,12 @@ def _judge(tier, seed, res, replay, frames, batches, runs, fresh, keys, zy, n_wo
         k0 = bad[0] if bad else None
         return {"case": {"ops": [list(o) for o in ops], "pool": pool,
                          "formulas": {i: FORMULAS[i][0] for i in sorted({o[1] for o in ops
-                                                                         if o[0] == "b"})}},
+                                                                         if o[0] == "b"})},
+                         "frames": {i: {"rows": int(len(frames[i])), "columns": list(frames[i].columns),
+                                        "missing_values_in": [c for c in frames[i].columns
+                                                              if bool(frames[i][c].isna().any())]}
+                                    for i in sorted({o[2] for o in ops if o[0] in ("b", "c", "g")
+                                                     and isinstance(o[2], int) and o[2] < len(frames)})}},
                 "impl": None if k0 is None else brief(outs[k0]),
                 "expected": None if k0 is None else brief(fresh[hkeys[k0]]),
                 "why": (describe(ops, outs, hkeys, flags, bad) + extra)[:8], "finding": None}
@@ -1083,7 +1192,7 @@ def _judge(tier, seed, res, replay, frames, batches, runs, fresh, keys, zy, n_wo
                 res.traces += 1
                 if v == "diff":
                     mo = next((d["out"] for d in ans.get("model_out", []) if d["k"] == k), None)
-                    mops, mouts = project_modelled(ops, outs, specs)
+                    mops, mouts = project_modelled(ops, outs, specs, na_frames)
                     res.mismatches.append({"case": {"ops": [list(o) for o in ops], "pool": pool,
                                                     "projected_op": k},
                                            "impl": brief(mouts[k]) if k < len(mouts) else None,
